@@ -3,9 +3,14 @@ tables are created dynamically, see vt/dbs/django_h.py)."""
 from django.db import models
 
 
+class City(models.Model):
+    name = models.CharField(max_length=50)
+
+
 class Person(models.Model):
     name = models.CharField(max_length=50)
     age = models.IntegerField(null=True)
+    city = models.ForeignKey(City, on_delete=models.CASCADE, related_name="people")   # NOT NULL
 
 
 class Blog(models.Model):
@@ -23,6 +28,7 @@ class Post(models.Model):
     score = models.IntegerField()
     blog = models.ForeignKey(Blog, null=True, on_delete=models.CASCADE, related_name="posts")
     author = models.ForeignKey(Person, null=True, on_delete=models.CASCADE, related_name="posts")
+    owner = models.ForeignKey(City, null=True, on_delete=models.CASCADE, related_name="owned_posts")
     tags = models.ManyToManyField(Tag, related_name="posts")
 
 
